@@ -22,6 +22,8 @@ def load():
 
 class Tracer:
     def __init__(self, proto, P, X):
+        import types
+        X = types.SimpleNamespace(**{n: getattr(X, n) for n in dir(X) if n.endswith('Exception') or n == 'InverterError'})   # snapshot: modules are reloaded per scenario
         self.proto, self.P, self.X = proto, P, X
         self.entries = []            # dict(tev=..., proj=[...], acts=[...], t=ms)
         self.cur = None              # TPop entry of the handle being run
@@ -45,6 +47,8 @@ class Tracer:
         self.loop_excs = []
         self.max_open = 0
         self.open_log = []
+        self.max_active = 0
+        self.active_log = []
 
     # ---------------------------------------------------------------- instrumentation of the instance
     def wrap_proto(self):
@@ -230,6 +234,9 @@ class Tracer:
         n = self.n_open()
         self.max_open = max(self.max_open, n)
         self.open_log.append((self.now(), n))
+        a = sum(1 for t in self.transports if t._sock is not None and not t._closing and self.tr_loop.get(id(t)) is self.loop)
+        self.max_active = max(self.max_active, a)
+        self.active_log.append((self.now(), a))
 
     def entry(self, tev, final=True):
         e = dict(tev=tev, proj=self.proj() if final else None, acts=[], t=self.now())
